@@ -704,10 +704,14 @@ class WaveShareNmea2000Gateway(AsyncIOClient):
             start = self._buffer.find(b"\xaa\x55")
 
             if start == -1:
-                # If start marker not found, wait for more data
+                # If start marker not found, wait for more data. Nothing in the buffer can belong to a
+                # packet except a trailing 0xAA (first half of the marker), so do not keep the noise.
+                keep = 1 if self._buffer.endswith(b"\xaa") else 0
+                del self._buffer[:len(self._buffer) - keep]
                 break
             if start + 20 > len(self._buffer):
-                # Not enough data for a full packet yet
+                # Not enough data for a full packet yet; the bytes in front of the marker are noise
+                del self._buffer[:start]
                 break
 
             # Extract the complete packet, including the end delimiter
